@@ -58,7 +58,7 @@ def run_check(pid, tier, seed):
     t0 = time.time()
     drv = load_driver(pid)
     spec = drv.plan(tier, seed)
-    acc = pool.run_tasks(spec['tasks'])
+    acc = pool.run_tasks(spec['tasks'], deadline=spec.get('deadline', 1500 if tier == 'quick' else 6 * 3600))
     if hasattr(drv, 'finish'):
         drv.finish(acc, spec)
     dropped = confirm_timeouts(acc)
@@ -93,7 +93,7 @@ def run_check(pid, tier, seed):
         vlines.append('VIOLATION property={} replay={}'.format(pid, path))
         print('  violated: {} :: {} :: e.g. {}'.format(fn, clause, json.dumps(recs[0], ensure_ascii=False)[:600]))
     wall = time.time() - t0
-    extra = {'distinct_violation_kinds': len(new), 'violating_executions': acc.nviol,
+    extra = {'distinct_violation_kinds': len(new), 'violating_executions': acc.nviol, 'tasks_abandoned_at_deadline': len(getattr(acc, 'incomplete', []) or []),
              'unconfirmed_timeouts_dropped': dropped,
              'slowest_tasks': [[round(t, 1), n, str(p)[:80]] for t, n, p in getattr(acc, 'timings', [])]}
     if not os.environ.get('VERIF_NOEVIDENCE'):
@@ -107,6 +107,11 @@ def run_check(pid, tier, seed):
         print(line)
     for line in vlines:
         print(line)
+    if getattr(acc, 'incomplete', None):
+        print('INCOMPLETE: the deadline passed with {} task(s) unfinished, e.g. {}'.format(len(acc.incomplete), acc.incomplete[0]))
+        if not new:
+            print('MACHINERY FAULT: run abandoned at the deadline without a verdict')
+            return 2
     return 1 if new else 0
 
 
